@@ -128,6 +128,39 @@ def one_fault(binary, work, idx, keylen, old, op, new, fsize, killat, sysinject)
     return case, verdict
 
 
+def shutdown_model(saveops, big):
+    cfg = dict(BASE)
+    cfg.update(SaveOps=saveops, Faults="FALSE", Procs='{"c1"}', MaxOps=3 if big else 2, MaxEdits=0,
+               EditKinds="{}", INVS="AckedThenSaved NoTmpLeft ViewsAgree", EMIT="ACTION_CONSTRAINT Emit")
+    return vlib.tlc(SPEC, "MCCredStore", "MCCredStore.cfg", cfg, workers=8, timeout=1800, edges=True, jvm=CDOT)
+
+
+def shutdown_replay(v, work, seed, big, graph, limit=400, repeat=None):
+    """Prefixes of model behaviours up to Cancel (saver phase x pending operations), replayed with the saver gated."""
+    paths, left = graph.cover(seed=seed, max_len=30)
+    prefixes = {}
+    for p in paths:
+        acts = [graph.edges[i][1] for i in p]
+        if any(a["n"] in ("Crash", "SvWriteError") for a in acts):
+            continue
+        for j, a in enumerate(acts):
+            if a["n"] == "Cancel":
+                prefixes[json.dumps(acts[:j + 1], sort_keys=True)] = p[:j + 1]
+                break
+    plist = sorted(prefixes.values(), key=lambda p: (len(p), p))
+    if not big and len(plist) > limit:
+        plist = vlib.random.Random(seed).sample(plist, limit)
+    behs = [graph.behaviour(p) for p in plist] * (repeat or (3 if not big else 6))   # Go's select is random when both cases are ready
+    sbin = vlib.build_driver("c20", work)
+    outs = common.run_parallel(sbin, "TestShutdown", [{"behaviours": c, "seed": seed + i} for i, c in enumerate(common.chunks(behs, 12))], 1500)
+    nshut, phases = 0, 0
+    for res, out, rc in outs:
+        res = common.absorb(v, res, out, rc, "shutdown replay")
+        nshut += res["behaviours"]
+        phases = max(phases, res.get("distinct", 0))
+    return nshut, phases, len(plist)
+
+
 def run(tier, seed, replay):
     v = vlib.Verdict("C20", tier, seed, "fault_enumeration")
     work = vlib.scratch("c20")
@@ -193,30 +226,7 @@ def run(tier, seed, replay):
     v.coverage["samples"] = [results[1][0], results[len(results) // 2][0], results[-1][0]]
 
     # (4) shutdown at every phase of the debounce: prefixes of model behaviours up to Cancel, gated replay
-    graph = vlib.Graph(r)
-    paths, left = graph.cover(seed=seed, max_len=30)
-    prefixes = {}
-    for p in paths:
-        acts = [graph.edges[i][1] for i in p]
-        if any(a["n"] in ("Crash", "SvWriteError") for a in acts):
-            continue
-        for j, a in enumerate(acts):
-            if a["n"] == "Cancel":
-                key = json.dumps(acts[:j + 1], sort_keys=True)
-                prefixes[key] = p[:j + 1]
-                break
-    plist = sorted(prefixes.values(), key=lambda p: (len(p), p))
-    if not big and len(plist) > 400:
-        rnd = vlib.random.Random(seed)
-        plist = rnd.sample(plist, 400)
-    behs = [graph.behaviour(p) for p in plist] * (3 if not big else 6)   # Go's select is random when both cases are ready
-    sbin = vlib.build_driver("c20", work)
-    outs = common.run_parallel(sbin, "TestShutdown", [{"behaviours": c, "seed": seed + i} for i, c in enumerate(common.chunks(behs, 12))], 1200)
-    nshut, phases = 0, 0
-    for res, out, rc in outs:
-        res = common.absorb(v, res, out, rc, "shutdown replay")
-        nshut += res["behaviours"]
-        phases = max(phases, res.get("distinct", 0))
+    nshut, phases, nprefix = shutdown_replay(v, work, seed, big, vlib.Graph(r))
     if model_violation and not v.violations and not v.known:
         raise vlib.Broken("TLC violates %s for the file operations %s read from the real save, but no injected fault reproduces it on the real code"
                           % (model_violation, modelled))
@@ -224,6 +234,6 @@ def run(tier, seed, replay):
                       rule="fault cases = (old store, operation, key size) x (RLIMIT_FSIZE=k for k over the document length | SIGKILL at a verifhook point | "
                            "SIGKILL at a system call of the save | both), each followed by a real restart; distinct = distinct (store, op, k, kill point); "
                            "shutdown cases = distinct model prefixes up to Cancel (saver phase x pending operations), each run several times",
-                      fault_cases=nfaults, shutdown_prefixes=len(plist), shutdown_runs=nshut, exhaustive=big)
+                      fault_cases=nfaults, shutdown_prefixes=nprefix, shutdown_runs=nshut, exhaustive=big)
     v.assumptions += ["crash = process death (page cache survives); power loss is not modelled", "the file operations of a save are those seen by strace in one run"]
     return v.finish()
